@@ -1,6 +1,6 @@
 //! Model-backed runs for the ipa scheme (trapdoor mode, Lean model PCV/Model/IPA.lean):
 //! `run(ctx, prop)` is called for every property; the properties this scheme takes part in are
-//! C01 C02 C03 C04 C05 C08 C10 C19.  Case ids `<prop>/ipa-model/…`.
+//! C01 C02 C03 C04 C05 C06 C08 C09 C10 C11 C17 C19.  Case ids `<prop>/ipa-model/…`.
 #[path = "ipa.rs"]
 mod ipa;
 
@@ -9,7 +9,7 @@ use crate::wire;
 use crate::Ctx;
 use ark_bls12_381::{Fr, G1Affine, G1Projective};
 use ark_ec::{AffineRepr, CurveGroup};
-use ark_ff::{Field, UniformRand, Zero};
+use ark_ff::{Field, One, UniformRand, Zero};
 use ark_poly::{DenseUVPolynomial, Polynomial};
 use ark_poly_commit::ipa_pc::CommitterKey;
 use ark_poly_commit::{Evaluations, LabeledPolynomial, PCCommitterKey, PolynomialCommitment, QuerySet};
@@ -24,6 +24,7 @@ pub fn run(ctx: &mut Ctx, prop: &str) {
         "C03" => c03(ctx),
         "C04" => c04(ctx),
         "C05" => c05(ctx),
+        "C06" => c06(ctx),
         "C08" => c08(ctx),
         "C10" => c10(ctx),
         "C19" => c19(ctx),
@@ -1194,4 +1195,396 @@ fn c19(ctx: &mut Ctx) {
         }
     }
     flush(ctx, "C19-ipa");
+}
+
+// ------------------------------------------------------------------------------------------------
+// C06: IPA's own `open_combinations` / `check_combinations`
+// ------------------------------------------------------------------------------------------------
+
+type Lc = ark_poly_commit::LinearCombination<Fr>;
+
+/// the refusal the combination phase must end in (first offending term in list order), if any:
+/// an unknown label, a bounded polynomial mixed with other terms, a single bounded term whose
+/// coefficient is not one
+fn lc_expected_refusal(polys: &[LP], lcs: &[Lc]) -> Option<&'static str> {
+    use ark_poly_commit::LCTerm;
+    for lc in lcs {
+        for (coeff, t) in lc.iter() {
+            if let LCTerm::PolyLabel(l) = t {
+                match polys.iter().rposition(|p| p.label() == l) {
+                    None => return Some("missingPolynomial"),
+                    Some(i) => {
+                        if polys[i].degree_bound().is_some() {
+                            if lc.len() != 1 {
+                                return Some("equationHasDegreeBounds");
+                            }
+                            if !coeff.is_one() {
+                                return Some("abort");
+                            }
+                        }
+                    }
+                }
+            }
+        }
+    }
+    None
+}
+
+fn lc_value(polys: &[LP], lc: &Lc, z: &Fr) -> Fr {
+    use ark_poly_commit::LCTerm;
+    let mut v = Fr::zero();
+    for (co, t) in lc.iter() {
+        match t {
+            LCTerm::One => v += *co,
+            LCTerm::PolyLabel(l) => {
+                if let Some(i) = polys.iter().rposition(|p| p.label() == l) {
+                    v += *co * polys[i].evaluate(z);
+                }
+            }
+        }
+    }
+    v
+}
+
+fn kind_of<T>(r: &Result<Result<T, ark_poly_commit::Error>, String>) -> String {
+    match r {
+        Ok(Ok(_)) => "ok".into(),
+        Ok(Err(e)) => err_kind(e),
+        Err(_) => "abort".into(),
+    }
+}
+
+fn c06(ctx: &mut Ctx) {
+    use ark_poly_commit::{BatchLCProof, LCTerm, LinearCombination};
+    let n = ctx.n(48, 480);
+    let reqs = [1usize, 2, 3, 4, 7, 8];
+    for i in 0..n {
+        let id0 = format!("C06/ipa-model/{}", i);
+        if !ctx.selected(&id0) {
+            continue;
+        }
+        let mut rng = rng_for(ctx.seed, "C06/ipa-model", i as u64);
+        let req = reqs[i % reqs.len()];
+        // polynomials: 2-4, about a third bounded, half hiding (mixed), at least one unbounded
+        let sd = (req + 1).next_power_of_two();
+        let nkey = if coin(&mut rng) { sd } else { 2 * sd };
+        let trap = Trap::random(&mut rng, nkey);
+        let pp = trap.params();
+        let (ck, vk) = match PC::trim(&pp, req, 0, None) { Ok(x) => x, Err(_) => continue };
+        let s = ck.supported_degree();
+        let npoly = range(&mut rng, 2, 4);
+        let mut polys: Vec<LP> = vec![];
+        let mut kinds = vec![];
+        for j in 0..npoly {
+            let (p, kind) = crate::kzg::gen_poly(&mut rng, s);
+            let deg = p.degree();
+            let bound = if j > 0 && range(&mut rng, 0, 2) == 0 { Some(range(&mut rng, deg, s)) } else { None };
+            let hiding = if coin(&mut rng) { Some(range(&mut rng, 0, 2)) } else { None };
+            // rarely a repeated polynomial label: the maps keep the last one
+            let label = if j + 1 == npoly && j >= 2 && range(&mut rng, 0, 9) == 0 { "p1".to_string() } else { format!("p{}", j) };
+            polys.push(LabeledPolynomial::new(label, p, bound, hiding));
+            kinds.push(kind);
+        }
+        let commit_draws = replay_fr(&rng, 2 * npoly);
+        let (comms, rands) = match guarded(|| PC::commit(&ck, &polys, Some(&mut rng))) {
+            Ok(Ok(x)) => x,
+            _ => {
+                ctx.rep.expect_fail(&id0, "ipa/in-domain-setup-refused", "commit refused an in-domain request", format!("# scheme: ipa\n# case: {}\n# seed: {}\n", id0, ctx.seed));
+                continue;
+            }
+        };
+        let c = Case { trap, req, s, ck, vk, polys, kinds, comms, rands, commit_draws };
+        let cs = match scalars_or_fail(ctx, &id0, &c) { Some(x) => x, None => continue };
+        let live: Vec<usize> = (0..npoly).filter(|&k| c.polys.iter().rposition(|p| p.label() == c.polys[k].label()) == Some(k)).collect();
+        let unbounded: Vec<usize> = live.iter().cloned().filter(|&k| c.polys[k].degree_bound().is_none()).collect();
+        let bounded: Vec<usize> = live.iter().cloned().filter(|&k| c.polys[k].degree_bound().is_some()).collect();
+        // combinations
+        let nlc = range(&mut rng, 1, 3);
+        let mut lcs: Vec<Lc> = vec![];
+        let mut kind = "in-policy";
+        for j in 0..nlc {
+            let mut lc = LinearCombination::empty(format!("lc{}", j));
+            let roll = range(&mut rng, 0, 11);
+            if roll <= 1 && !bounded.is_empty() {
+                let b = bounded[range(&mut rng, 0, bounded.len() - 1)];
+                let bl = c.polys[b].label().clone();
+                match range(&mut rng, 0, 3) {
+                    0 => { lc.push((Fr::from(1u64), LCTerm::PolyLabel(bl))); lc.push((Fr::rand(&mut rng), LCTerm::One)); }
+                    1 => { lc.push((Fr::from(2u64), LCTerm::PolyLabel(bl))); }
+                    2 => { lc.push((Fr::rand(&mut rng), LCTerm::One)); lc.push((Fr::from(1u64), LCTerm::PolyLabel(bl))); }
+                    _ => { lc.push((Fr::from(1u64), LCTerm::PolyLabel(bl))); lc.push((Fr::rand(&mut rng), LCTerm::PolyLabel(c.polys[live[(b + 1) % live.len()]].label().clone()))); }
+                }
+                kind = "policy-violation";
+            } else if roll == 2 {
+                if coin(&mut rng) && !unbounded.is_empty() {
+                    lc.push((Fr::rand(&mut rng), LCTerm::PolyLabel(c.polys[unbounded[0]].label().clone())));
+                }
+                lc.push((Fr::rand(&mut rng), LCTerm::PolyLabel("nosuch".to_string())));
+                if kind == "in-policy" { kind = "unknown-label"; }
+            } else if !bounded.is_empty() && (unbounded.is_empty() || roll == 3 || roll == 4) {
+                // a single bounded term with coefficient one keeps its bound
+                lc.push((Fr::from(1u64), LCTerm::PolyLabel(c.polys[bounded[range(&mut rng, 0, bounded.len() - 1)]].label().clone())));
+                ctx.rep.count("ipa/lc-single-bounded-term");
+            } else if !unbounded.is_empty() {
+                let nt = range(&mut rng, 1, 6);
+                let must_poly = range(&mut rng, 0, nt - 1);
+                for t in 0..nt {
+                    let coeff = match range(&mut rng, 0, 4) { 0 => Fr::zero(), 1 => Fr::from(1u64), 2 => -Fr::from(1u64), _ => Fr::rand(&mut rng) };
+                    if t != must_poly && range(&mut rng, 0, 3) == 0 {
+                        lc.push((coeff, LCTerm::One));
+                    } else {
+                        lc.push((coeff, LCTerm::PolyLabel(c.polys[unbounded[range(&mut rng, 0, unbounded.len() - 1)]].label().clone())));
+                    }
+                }
+            } else {
+                continue;
+            }
+            lcs.push(lc);
+        }
+        if lcs.is_empty() {
+            continue;
+        }
+        // query set over the combinations: 1-3 point labels, labels sharing a point value, several
+        // combinations per point
+        let mut qs: QuerySet<Fr> = QuerySet::new();
+        let mut ev: Evaluations<Fr, Fr> = Evaluations::new();
+        let nl = range(&mut rng, 1, 3);
+        let mut pts: Vec<Fr> = vec![];
+        for l in 0..nl {
+            let pt = if l > 0 && coin(&mut rng) { pts[range(&mut rng, 0, pts.len() - 1)] } else { Fr::rand(&mut rng) };
+            pts.push(pt);
+            for (k, lc) in lcs.iter().enumerate() {
+                if coin(&mut rng) || (k == l % lcs.len()) {
+                    qs.insert((lc.label().clone(), (format!("pt{}", l), pt)));
+                    ev.insert((lc.label().clone(), pt), lc_value(&c.polys, lc, &pt));
+                }
+            }
+        }
+        let ngroups = crate::generic::group(&qs).len();
+        let expected = lc_expected_refusal(&c.polys, &lcs);
+        // ---------------------------------------------------------------- prover
+        let draws = replay_fr(&rng, ngroups * (c.s + 4) + 4);
+        let mut sp = LogSponge::fresh();
+        ro_clear();
+        let mut prng = rng.clone();
+        let r = guarded(|| PC::open_combinations(&c.ck, &lcs, &c.polys, &c.comms, &qs, &mut sp, &c.rands, Some(&mut prng)));
+        let (ros, _) = ro_take();
+        let xis = sp.challenges();
+        let answered = matches!(r, Ok(Ok(_)));
+        let lcsc = lc_scalars(&c.polys, &cs, &c.rands, &lcs);
+        let sb = lcsc.as_ref().and_then(|x| scalar_batch(&c.trap, c.s, &x.polys, &x.cs, &x.rands, &qs, &xis, &ros, &draws));
+        let pad = |v: &[Fr], n: usize, nz: bool, tag: u64| -> Vec<Fr> {
+            let mut x = v.to_vec();
+            let mut e = rng_for(tag, &id0, 5);
+            while x.len() < n {
+                x.push(if nz { rand_nonzero(&mut e) } else { Fr::rand(&mut e) });
+            }
+            x
+        };
+        let need_xi = 2 * qs.len() + ngroups + 2;
+        let need_ro = ngroups * (ark_std::log2(c.s + 1) as usize + 3) + 2;
+        let base_p = |op: &str| lcs_args(comms_args(rands_args(polys_args(c.base(op), &c.polys), &c.rands), &cs), &lcs);
+        let reqm = queries_args(base_p("ipa.open_combinations"), &qs)
+            .arg("xis", wire::fes(&pad(&xis, need_xi, false, 3)))
+            .arg("ros", wire::fes(&pad(&ros, need_ro, true, 4)))
+            .arg("rng", wire::boolean(true))
+            .arg("draws", wire::fes(&draws));
+        let mut key_defined = false;
+        match &r {
+            Ok(Ok(bp)) => {
+                let proofs = &bp.proof;
+                let mut exp = vec![
+                    ("fcks".into(), Expect::G1s(proofs.iter().map(|p| p.final_comm_key).collect())),
+                    ("pcs".into(), Expect::Fes(proofs.iter().map(|p| p.c).collect())),
+                    ("hcs".into(), Expect::OptG1List(proofs.iter().map(|p| p.hiding_comm).collect())),
+                    ("prands".into(), Expect::Raw(wire::Val::L(proofs.iter().map(|p| wire::opt_fe(&p.rand)).collect()))),
+                    ("nls".into(), Expect::Nats(proofs.iter().map(|p| p.l_vec.len()).collect())),
+                    ("used_xi".into(), Expect::Nat(xis.len())),
+                ];
+                if let Some((ps, _, kr, kd)) = &sb {
+                    key_defined = ps.len() == proofs.len() && ps.iter().zip(proofs.iter()).all(|(a, b)| a.matches(b));
+                    if key_defined {
+                        exp.push(("lss".into(), Expect::Raw(wire::Val::L(ps.iter().map(|p| wire::fes(&p.ls)).collect()))));
+                        exp.push(("rss".into(), Expect::Raw(wire::Val::L(ps.iter().map(|p| wire::fes(&p.rs)).collect()))));
+                        exp.push(("used_ro".into(), Expect::Nat(*kr)));
+                        exp.push(("used_draws".into(), Expect::Nat(*kd)));
+                    }
+                }
+                if bp.evals.is_some() {
+                    ctx.rep.expect_fail(&id0, "ipa/lc-evals-transmitted", "BatchLCProof.evals is not None", c.replay(&id0, ctx.seed, "open_combinations"));
+                }
+                ctx.ses.ask(&id0, reqm, ImplOutcome::Ok(exp));
+                if !key_defined {
+                    ctx.rep.expect_fail(&id0, "ipa/lc-proof-not-key-defined", "open_combinations: the proofs are not the key-defined ones of the combined polynomials", c.replay(&id0, ctx.seed, &format!("lcs={:?}", lcs)));
+                }
+            }
+            Ok(Err(e)) => ctx.ses.ask(&id0, reqm, ImplOutcome::Refuse(err_kind(e))),
+            Err(a) => ctx.ses.ask(&id0, reqm, ImplOutcome::Refuse(a.clone())),
+        }
+        let pkind = kind_of(&r);
+        match expected {
+            None => {
+                if !answered {
+                    ctx.rep.expect_fail(&id0, "ipa/lc-honest-refused", &format!("in-policy combination refused: {}", pkind), c.replay(&id0, ctx.seed, &format!("lcs={:?}", lcs)));
+                }
+            }
+            Some(e) => {
+                if answered {
+                    ctx.rep.expect_fail(&id0, if e == "equationHasDegreeBounds" { "ipa/lc-bound-dropped" } else { "ipa/lc-out-of-domain-answered" },
+                        &format!("open_combinations answered a combination that must be refused ({})", e), c.replay(&id0, ctx.seed, &format!("lcs={:?}", lcs)));
+                } else if pkind != e {
+                    ctx.rep.expect_fail(&id0, "ipa/lc-wrong-error", &format!("open_combinations refused with {} instead of {}", pkind, e), c.replay(&id0, ctx.seed, &format!("lcs={:?}", lcs)));
+                }
+            }
+        }
+        ctx.rep.count(&format!("ipa/lc-{}", kind));
+        ctx.rep.count(&format!("ipa/lc-hiding-{}", c.polys.iter().filter(|p| p.hiding_bound().is_some()).count().min(2)));
+        ctx.rep.case(&format!("{} lc kind={} lcs={} queries={} groups={} answered={}", c.desc(), kind, lcs.len(), qs.len(), ngroups, answered),
+            Some(format!("ipa-lc/{}/{}/{}/{}/{}", kind, c.s, lcs.len(), qs.len(), ngroups)));
+        // ---------------------------------------------------------------- verifier
+        let (proof, ps): (BatchLCProof<Fr, Vec<ark_poly_commit::ipa_pc::Proof<G1Affine>>>, Vec<ProofS>) = match (r, sb) {
+            (Ok(Ok(p)), Some((ps, _, _, _))) if key_defined => (p, ps),
+            (Ok(Ok(_)), _) => continue,
+            _ => (BatchLCProof { proof: vec![], evals: None }, vec![]),
+        };
+        // the error kinds of the combination phase, prover and verifier (compared exactly)
+        {
+            let mut vs0 = LogSponge::fresh();
+            let mut vr0 = rng.clone();
+            let rv = guarded(|| PC::check_combinations(&c.vk, &lcs, &c.comms, &qs, &ev, &proof, &mut vs0, &mut vr0));
+            let vkind = kind_of(&rv);
+            if expected.is_some() || (answered && vkind == "ok") {
+                let rq = evals_args(base_p("ipa.lc_kind"), &ev);
+                ctx.ses.ask(&format!("{}/kind", id0), rq, ImplOutcome::Ok(vec![
+                    ("pkind".into(), Expect::Raw(wire::label(&pkind))),
+                    ("vkind".into(), Expect::Raw(wire::label(&vkind))),
+                ]));
+            }
+            if let Some(e) = expected {
+                if vkind == "ok" {
+                    ctx.rep.expect_fail(&id0, if e == "equationHasDegreeBounds" { "ipa/lc-bound-dropped/verifier" } else { "ipa/lc-out-of-domain-answered/verifier" },
+                        &format!("check_combinations answered a combination that must be refused ({})", e), c.replay(&id0, ctx.seed, &format!("lcs={:?}", lcs)));
+                } else if vkind != e {
+                    ctx.rep.expect_fail(&id0, "ipa/lc-wrong-error/verifier", &format!("check_combinations refused with {} instead of {}", vkind, e), c.replay(&id0, ctx.seed, &format!("lcs={:?}", lcs)));
+                }
+            }
+        }
+        // variants: (name, combinations, evaluations, expectation: Some(true) accept / Some(false) refuse / None)
+        let mut variants: Vec<(String, Vec<Lc>, Evaluations<Fr, Fr>, Option<bool>)> = vec![];
+        let keys: Vec<(String, Fr)> = ev.keys().cloned().collect();
+        let queried = |l: &String| keys.iter().any(|k| &k.0 == l);
+        let with_terms = |li: usize, terms: Vec<(Fr, LCTerm)>| -> Vec<Lc> {
+            let mut l2 = lcs.clone();
+            l2[li] = LinearCombination::new(lcs[li].label().clone(), terms);
+            l2
+        };
+        if expected.is_none() {
+            variants.push(("honest".into(), lcs.clone(), ev.clone(), Some(true)));
+            // a claimed value changed, at every claim position
+            for (ki, k) in keys.iter().enumerate() {
+                let mut e2 = ev.clone();
+                *e2.get_mut(k).unwrap() += rand_nonzero(&mut rng);
+                variants.push((format!("value@{}", ki), lcs.clone(), e2, Some(false)));
+            }
+            for (li, lc) in lcs.iter().enumerate() {
+                let terms: Vec<(Fr, LCTerm)> = lc.iter().cloned().collect();
+                for (ti, t) in terms.iter().enumerate() {
+                    let d = rand_nonzero(&mut rng);
+                    let mut t2 = terms.clone();
+                    t2[ti].0 += d;
+                    match &t.1 {
+                        LCTerm::One => {
+                            // a constant changed on the verifier's side
+                            variants.push((format!("constant@{}.{}", li, ti), with_terms(li, t2.clone()), ev.clone(), if queried(lc.label()) { Some(false) } else { None }));
+                            // ... together with every claimed value of this combination: a true statement
+                            let mut e2 = ev.clone();
+                            for k in keys.iter().filter(|k| &k.0 == lc.label()) {
+                                *e2.get_mut(k).unwrap() += d;
+                            }
+                            variants.push((format!("constant+values@{}.{}", li, ti), with_terms(li, t2), e2, Some(true)));
+                        }
+                        LCTerm::PolyLabel(l) => {
+                            // a coefficient changed on the verifier's side (no effect on the statement when
+                            // the polynomial's commitment is the identity)
+                            let pi = c.polys.iter().rposition(|p| p.label() == l).unwrap();
+                            let inert = cs[pi].c.is_zero();
+                            let must = if queried(lc.label()) && !inert { Some(false) } else { None };
+                            variants.push((format!("coefficient@{}.{}", li, ti), with_terms(li, t2.clone()), ev.clone(), must));
+                            // ... with the claimed values moved along (a true statement about another
+                            // combination; the proof is bound to the combined commitment)
+                            if c.polys[pi].degree_bound().is_none() && queried(lc.label()) {
+                                let mut e2 = ev.clone();
+                                for k in keys.iter().filter(|k| &k.0 == lc.label()) {
+                                    *e2.get_mut(k).unwrap() += d * c.polys[pi].evaluate(&k.1);
+                                }
+                                variants.push((format!("coefficient+values@{}.{}", li, ti), with_terms(li, t2), e2, if inert { None } else { Some(false) }));
+                            }
+                        }
+                    }
+                }
+                // an added constant term
+                let mut t3 = terms.clone();
+                t3.push((rand_nonzero(&mut rng), LCTerm::One));
+                variants.push((format!("constant-added@{}", li), with_terms(li, t3), ev.clone(), if queried(lc.label()) { Some(false) } else { None }));
+                // an unknown label on the verifier's side
+                let mut t4 = terms.clone();
+                let pos = range(&mut rng, 0, t4.len() - 1);
+                t4[pos].1 = LCTerm::PolyLabel("nosuch".to_string());
+                variants.push((format!("unknown-label@{}", li), with_terms(li, t4), ev.clone(), Some(false)));
+                // a bounded polynomial mixed in on the verifier's side
+                if let Some(&b) = bounded.first() {
+                    let mut t5 = terms.clone();
+                    t5.push((Fr::from(1u64), LCTerm::PolyLabel(c.polys[b].label().clone())));
+                    variants.push((format!("bounded-mixed-in@{}", li), with_terms(li, t5), ev.clone(), Some(false)));
+                }
+            }
+            // cancelling value errors on two claims
+            if keys.len() >= 2 {
+                let a = range(&mut rng, 0, keys.len() - 1);
+                let b = (a + 1 + range(&mut rng, 0, keys.len() - 2)) % keys.len();
+                let d = rand_nonzero(&mut rng);
+                let mut e2 = ev.clone();
+                *e2.get_mut(&keys[a]).unwrap() += d;
+                *e2.get_mut(&keys[b]).unwrap() -= d;
+                variants.push((format!("cancel@{},{}", a, b), lcs.clone(), e2, Some(false)));
+            }
+            // a missing evaluation
+            {
+                let mut e2 = ev.clone();
+                e2.remove(&keys[range(&mut rng, 0, keys.len() - 1)]);
+                variants.push(("missing-evaluation".into(), lcs.clone(), e2, Some(false)));
+            }
+        } else {
+            // the refused combination list on the verifier's side, with the (true) values
+            variants.push(("refused".into(), lcs.clone(), ev.clone(), Some(false)));
+        }
+        for (vname, l2, e2, must) in variants {
+            let id = format!("{}/{}", id0, vname);
+            let mut vs = LogSponge::fresh();
+            let rs = crate::kzg::replay_u128(&rng, ps.len().max(ngroups) + 1);
+            ro_clear();
+            let out = guarded(|| PC::check_combinations(&c.vk, &l2, &c.comms, &qs, &e2, &proof, &mut vs, &mut rng));
+            let (vros, _) = ro_take();
+            let acc = matches!(out, Ok(Ok(true)));
+            let need_ro_v: usize = ps.iter().map(|p| p.ls.len().max(p.rs.len()) + 2).sum::<usize>() + 2;
+            let reqv = proofs_args(evals_args(queries_args(lcs_args(comms_args(c.base("ipa.check_combinations"), &cs), &l2), &qs), &e2), &ps)
+                .arg("xis", wire::fes(&pad(&vs.challenges(), need_xi, false, 6)))
+                .arg("ros", wire::fes(&pad(&vros, need_ro_v, true, 7)))
+                .arg("rs", wire::fes(&rs));
+            ctx.ses.ask(&id, reqv, match &out {
+                Ok(Ok(b)) => ImplOutcome::Ok(vec![("b".into(), Expect::Bool(*b))]),
+                Ok(Err(e)) => ImplOutcome::Refuse(err_kind(e)),
+                Err(a) => ImplOutcome::Refuse(a.clone()),
+            });
+            match must {
+                Some(true) if !acc => ctx.rep.expect_fail(&id, "ipa/lc-honest-rejected", &format!("true combination statement not accepted ({}): {}", vname, kind_of(&out)), c.replay(&id, ctx.seed, &format!("lcs={:?}", l2))),
+                Some(false) if acc => ctx.rep.expect_fail(&id, &format!("ipa/lc-false-accepted/{}", vname.split('@').next().unwrap_or("")), "changed combination statement accepted", c.replay(&id, ctx.seed, &format!("lcs={:?}", l2))),
+                _ => {}
+            }
+            let vk0 = vname.split('@').next().unwrap_or("").to_string();
+            ctx.rep.count(&format!("ipa/lc-check-{}", vk0));
+            ctx.rep.case(&format!("{} lc check {} acc={}", c.desc(), vname, acc), Some(format!("ipa-lc-check/{}/{}/{}", vk0, c.s, acc)));
+        }
+    }
+    flush(ctx, "C06-ipa");
 }
